@@ -72,8 +72,10 @@ Definition set_cconn (p : pool) (c : nat) : pool := p <| cl := upd (cl p) c (mkC
 (* resource.CanCreate / Increase / Decrease (resource_manager.go): a limit of 0 means "not counted" *)
 Definition can_create (k : cfg) (p : pool) : bool :=
   (k_max_req k =? 0) || (req p <? 0) || (req p <? k_max_req k).
-Definition req_inc (k : cfg) (p : pool) : pool := if k_max_req k =? 0 then p else p <| req := req p + 1 |>.
-Definition req_dec (k : cfg) (p : pool) : pool := if k_max_req k =? 0 then p else p <| req := req p - 1 |>.
+(* Increase / Decrease always count (resource_manager.go since c8b45b4d7, pinned by Gen.PoolSrc poolres_src_counts_unlimited);
+   max_requests = 0 only means that CanCreate admits everything *)
+Definition req_inc (k : cfg) (p : pool) : pool := p <| req := req p + 1 |>.
+Definition req_dec (k : cfg) (p : pool) : pool := p <| req := req p - 1 |>.
 
 (* http onConnectionEvent: delete the first match, order kept *)
 Fixpoint remove1 (c : nat) (l : list nat) : list nat :=
@@ -249,8 +251,7 @@ Definition step (k : cfg) (p : pool) (o : op) : pool * res :=
     end
   | Shutdown => (fold_left set_cconn (idle p) p, RN)
   | ExtReq inc =>
-    if k_max_req k =? 0 then (p, RN)
-    else if inc then (p <| req := req p + 1 |> <| ext := ext p + 1 |>, RN)
+    if inc then (p <| req := req p + 1 |> <| ext := ext p + 1 |>, RN)
     else if 0 <? ext p then (p <| req := req p - 1 |> <| ext := ext p - 1 |>, RN)
     else (p, RN)
   end.
